@@ -64,7 +64,7 @@ STRUCTURAL = ("exact static rule check over all paths of the enumerated function
 PROPS = {
     "C01": {
         "title": "Canonicity: edges are equal exactly when they denote the same function",
-        "rules": [on_program(rules_canon.rule_canon), on_program(rules_canon.rule_hash), on_program(rules_canon.rule_equals), callers_for("C01"), on_program(rules_level.rule_index_kind)],
+        "rules": [on_program(rules_canon.rule_canon), on_program(rules_canon.rule_hash), on_program(rules_canon.rule_equals), callers_for("C01"), on_program(rules_level.rule_index_kind), on_program(rules_storage.rule_singleton_scan)],
         "explanation": STRUCTURAL + ". C01: reduce-then-lookup-before-insert on every path of node creation (normalise, transparent/identity/redundant elimination, sort, hash, find, insert — in order), "
                        "hash recipe agreement between the unpacked and the packed form in all four variants, edge equality reading forest id + node + edge value, who may write packed nodes / the unique table, and level/variable index kinds (the level-size bound and the unique-table slot of a node are taken for the variable at its level).",
         "assumptions": ["that the reduction conditions and the EV normal forms are the right ones is not decided (value semantics)", "float tolerance effects in EV* are not decided"],
@@ -76,7 +76,7 @@ PROPS = {
     "C02": {
         "title": "Every stored node obeys the forest's declared reduction rule",
         "rules": [on_program(rules_canon.rule_canon), callers_for("C02"), on_program(rules_layer.rule_active_count), on_program(rules_layer.rule_cache_before_rewrite),
-                  on_program(rules_layer.rule_exchange_once), on_program(rules_sibling.rule_swap_loops), on_program(rules_canon.rule_hash)],
+                  on_program(rules_layer.rule_exchange_once), on_program(rules_sibling.rule_swap_loops), on_program(rules_canon.rule_hash), on_program(rules_storage.rule_singleton_scan)],
         "explanation": STRUCTURAL + ". C02: no transparent / redundant / identity pattern is inserted on any path of node creation and the stored level is the unpacked level; packed nodes are written only by creation and by the reordering primitives; "
                        "node count = live nodes (incActive/decActive pairing); the in-place rewrite of the adjacent-variable swap visits the same ranges in its MT and EV+ twins; full and sparse forms hash identically.",
         "assumptions": ["children strictly below parents, quasi-reduced never skipping and singleton-edge legality after arbitrary operation histories depend on the values operations put into nodes: not decided"],
